@@ -460,11 +460,36 @@ def q2(prog, ctx, tag="Q2"):
             shifts = [s for s in body if any(isinstance(c, ast.Call) and (call_name(c) or "").startswith("shift_poly") for c in ast.walk(s))]
             if cuts and shifts and max(s.lineno for s in shifts) > min(s.lineno for s in cuts):
                 ctx.fail(tag, cuts[0], q, src(cuts[0]), "the exon list is cut before the tail position is moved onto the retained exon (shift_poly*)")
-    # correct_read_info never lets both counts consume all exons: on every path where polyA count + polyT count == number of exons,
-    # both returned counts are one less than what the counters found
+    # correct_read_info never lets the two counts consume all exons (see q2_guard)
+    q2_guard(prog, ctx, tag)
+
+
+def _upper_bound(constraints):
+    """Largest integer s allowed by a conjunction of constraints  s + c (op) 0  (op as text), or None when unbounded above."""
+    hi = None
+    for c, op in constraints:
+        b = {"==": -c, "<": -c - 1, "<=": -c}.get(op)
+        if b is not None:
+            hi = b if hi is None else min(hi, b)
+    return hi
+
+
+_NEG = {"==": "!=", "!=": "==", "<": ">=", ">=": "<", ">": "<=", "<=": ">"}
+_OPS = {ast.Eq: "==", ast.NotEq: "!=", ast.Lt: "<", ast.LtE: "<=", ast.Gt: ">", ast.GtE: ">="}
+
+
+def q2_guard(prog, ctx, tag):
+    """On every path of correct_read_info that returns counts, the path condition must imply
+           returned polyA count + returned polyT count < len(read_exons)
+    (linear reasoning over s = found polyA count + found polyT count - len(read_exons); loops taken 0 or 1 times, the exit of a while
+    loop contributes the negation of its test), both counts are only ever changed by the same amount (so that a count driven below zero,
+    which the caller treats as zero, means the other one was reduced as well), and each counter is bounded by the number of exons
+    (initialised to 0, incremented by one at most once per iteration of a loop over range(len(read_exons)))."""
     from ..engine import linform as _lf
-    cf = prog.func("src/polya_verification.py", "PolyAFixer.correct_read_info")
-    guarded = 0
+    rel = "src/polya_verification.py"
+    cf = prog.func(rel, "PolyAFixer.correct_read_info")
+    exons_param = cf.args.args[1].arg
+    checked = 0
     problem = None
     for pth in flow.paths(cf):
         if pth.exit != "return" or pth.exit_node is None or not isinstance(pth.exit_node.value, ast.Tuple) or len(pth.exit_node.value.elts) != 2:
@@ -472,7 +497,6 @@ def q2(prog, ctx, tag="Q2"):
         if all(isinstance(e, ast.Constant) and e.value == 0 for e in pth.exit_node.value.elts):
             continue                      # nothing is trimmed on this path
         env = symexec.run_path(pth)
-        # the two counts as first computed on this path
         first = {}
         for ev in pth.events:
             if ev[0] == "stmt" and isinstance(ev[1], ast.Assign) and len(ev[1].targets) == 1 and isinstance(ev[1].targets[0], ast.Name) \
@@ -481,24 +505,34 @@ def q2(prog, ctx, tag="Q2"):
         if len(first) != 2:
             problem = problem or "the two exon counts are not both computed on path %s" % pth.describe()[:80]
             continue
-        total = None
+        base = {src(v): 1 for v in first.values()}
+        base["len(%s)" % exons_param] = -1
+
+        def offset(form):
+            """c if form == s + c for s = sum of the found counts - len(exons), else None"""
+            d = dict(form)
+            for k, v in base.items():
+                d[k] = d.get(k, 0) - v
+            d = {k: v for k, v in d.items() if v}
+            return d.get("1", 0) if set(d) <= {"1"} else None
+
         sub = symexec.cond_substituter(pth)
+        constraints = []
         for i, ev in enumerate(pth.events):
             if ev[0] != "cond":
                 continue
             for atom, pol in flow.conjuncts(ev[1], ev[2]):
-                if isinstance(atom, ast.Compare) and len(atom.ops) == 1 and isinstance(atom.ops[0], (ast.Eq, ast.NotEq)):
+                if isinstance(atom, ast.Compare) and len(atom.ops) == 1 and type(atom.ops[0]) in _OPS:
                     d = dict(_lf.linform(sub(atom.left, i)))
                     for k, v in _lf.linform(sub(atom.comparators[0], i)).items():
                         d[k] = d.get(k, 0) - v
-                    d = {k: v for k, v in d.items() if v}
-                    want = {src(v): 1 for v in first.values()}
-                    want["len(%s)" % cf.args.args[1].arg] = -1
-                    if d == want or d == {k: -v for k, v in want.items()}:
-                        total = pol if isinstance(atom.ops[0], ast.Eq) else not pol
-        if total is None:
-            problem = problem or "a path returns without testing count sum == len(read_exons): %s" % pth.describe()[:80]
-            continue
+                    op = _OPS[type(atom.ops[0])]
+                    c = offset(d)
+                    if c is None:
+                        c = offset({k: -v for k, v in d.items()})
+                        op = {"<": ">", ">": "<", "<=": ">=", ">=": "<="}.get(op, op)
+                    if c is not None:
+                        constraints.append((c, op if pol else _NEG[op]))
         ret = [symexec.subst(e, env) for e in pth.exit_node.value.elts]
         diffs = []
         for r in ret:
@@ -511,16 +545,58 @@ def q2(prog, ctx, tag="Q2"):
                 if set(d) <= {"1"}:
                     best = d.get("1", 0)
             diffs.append(best)
-        if total:
-            guarded += 1
-            if diffs != [-1, -1]:
-                problem = problem or "when all exons look like polyA/T the returned counts are %s relative to the found ones (must both be -1)" % diffs
-        elif diffs != [0, 0]:
-            problem = problem or "the counts are changed (%s) although not all exons are polyA/T" % diffs
-    if problem or guarded == 0:
-        ctx.fail(tag, cf, cf._qualname, "all-exons guard", "guard against trimming every exon is missing or wrong: %s" % (problem or "no path tests the sum"))
+        checked += 1
+        if None in diffs or diffs[0] != diffs[1] or diffs[0] > 0:
+            problem = problem or "the returned counts differ from the found ones by %s (they must be reduced together, by the same amount)" % diffs
+            continue
+        hi = _upper_bound(constraints)
+        ret_off = diffs[0] + diffs[1]
+        if hi is None or hi + ret_off >= 0:
+            conds = ", ".join("s%+d %s 0" % (c, op) for c, op in constraints) or "no test of the sum"
+            problem = problem or ("a path returns the counts%s with only [%s] known about s = polyA count + polyT count - len(%s): the sum of the "
+                                  "returned counts can reach the number of exons (an exon counted from both sides makes the sum exceed it), "
+                                  "every exon is trimmed" % (" reduced by %d each" % -diffs[0] if diffs[0] else " unchanged", conds, exons_param))
+    # the counters are bounded by the number of exons
+    bounded = 0
+    for name in ("PolyAFixer.count_polya_exons", "PolyAFixer.count_polyt_exons"):
+        g = prog.func(rel, name)
+        rets = [r for r in walk_no_nested(g) if isinstance(r, ast.Return) and r.value is not None]
+        counters = {r.value.id for r in rets if isinstance(r.value, ast.Name)}
+        consts = [r for r in rets if isinstance(r.value, ast.Constant)]
+        if len(counters) != 1 or any(r.value.value != 0 for r in consts) or len([r for r in rets if isinstance(r.value, ast.Name)]) + len(consts) != len(rets):
+            problem = problem or "%s: the returned counter is not a single local variable" % name
+            continue
+        cnt = next(iter(counters))
+        ok = True
+        for st in walk_no_nested(g):
+            if isinstance(st, ast.Assign) and any(isinstance(t, ast.Name) and t.id == cnt for t in st.targets):
+                if not (isinstance(st.value, ast.Constant) and st.value.value == 0 and st._parent is g):
+                    ok = False
+            elif isinstance(st, ast.AugAssign) and isinstance(st.target, ast.Name) and st.target.id == cnt:
+                loops = []
+                n = st._parent
+                while n is not g:
+                    if isinstance(n, (ast.For, ast.While)):
+                        loops.append(n)
+                    n = n._parent
+                if not (isinstance(st.op, ast.Add) and isinstance(st.value, ast.Constant) and st.value.value == 1 and len(loops) == 1
+                        and isinstance(loops[0], ast.For) and src(loops[0].iter) in ("range(len(%s))" % g.args.args[1].arg,
+                                                                                      g.args.args[1].arg, "reversed(%s)" % g.args.args[1].arg)):
+                    ok = False
+                else:
+                    # at most one increment per iteration: no second increment of the counter in the same loop body on one path
+                    incs = [x for x in walk_no_nested(loops[0]) if isinstance(x, ast.AugAssign) and isinstance(x.target, ast.Name) and x.target.id == cnt]
+                    if len(incs) != 1:
+                        ok = False
+        if not ok:
+            problem = problem or "%s: the counter %s is not bounded by the number of exons (0, then += 1 once per iteration over the exons)" % (name, cnt)
+        else:
+            bounded += 1
+    if problem or checked == 0:
+        ctx.fail(tag, cf, cf._qualname, "all-exons guard", "guard against trimming every exon is missing or wrong: %s" % (problem or "no path returns counts"))
     else:
-        ctx.ok(tag, "src/polya_verification.py:%d" % cf.lineno, "when polyA + polyT counts cover all exons both are reduced by one (path-wise)")
+        ctx.ok(tag, "%s:%d" % (rel, cf.lineno), "on all %d count-returning paths the path condition implies returned polyA + polyT counts < len(%s); "
+               "both are reduced together; %d counters bounded by the number of exons" % (checked, exons_param, bounded))
 
 
 # ---------------------------------------------------------------------------
